@@ -164,6 +164,27 @@ def search(ctx):
                     report(which + ":triangular", "accepted covariance factor is not lower triangular", inp, np.max(np.abs(np.triu(Wa, 1))), 0)
                 # (a corrected MRP may have norm slightly above 1: the property asks norm <= 1 of the prediction only,
                 #  which re-applies the shadow switch on the next step)
+    # exactly consistent measurements (zero innovation: the direction v/|v| of the correction is 0/0 and must not be selected)
+    for z in (0.0, 0.1, -0.3, 0.5, float(np.tan(np.pi / 8)), 1.0, -1.0):
+        for scale in (1.0, 0.95, 1.05):
+            x = np.array([0.0, 0.0, z, 0.01, -0.02, 0.005]); W = rand_W()
+            y = np.array([0.0, 0.0, -9.8 * scale])
+            out = m["correct_accel"](x, W, y, 9.8, np.array([0.1, -0.2, 0.05]), 35e-3, 0, 9.2); ev += 1
+            xa = np.array(out[0]).ravel()
+            inp = {"fn": "correct_accel", "x": x.tolist(), "W": W.tolist(), "y_b": y.tolist()}
+            if float(out[5]) == 0:
+                stats["accel_accept"] += 1
+                if not all(np.all(np.isfinite(np.array(o))) for o in out[:5]):
+                    report("accel:accept-nan", "accepted correction returned a non-finite value (zero innovation)", inp, np.nan, 0)
+                elif not np.max(np.abs(xa[:3] - x[:3])) <= 1e-12:
+                    report("accel:zero-innovation", "a measurement exactly consistent with the estimate moved the attitude", inp, np.max(np.abs(xa[:3] - x[:3])), 1e-12)
+            ym = np.array(s["measure_mag"](x, 1.0, 0.0, 0.3, 0, np.zeros(3))).ravel()
+            out = m["correct_mag"](x, W, ym, 0.0, 2.5e-3, 6.6); ev += 1
+            inp = {"fn": "correct_mag", "x": x.tolist(), "W": W.tolist(), "y_b": ym.tolist(), "decl": 0.0}
+            if float(out[5]) == 0:
+                stats["mag_accept"] += 1
+                if not all(np.all(np.isfinite(np.array(o))) for o in out[:5]):
+                    report("mag:accept-nan", "accepted correction returned a non-finite value (zero innovation)", inp, np.nan, 0)
     # bit-for-bit on rejection with a negative zero in the state (known finding)
     x = np.array([0.1, -0.0, 0.2, 0.0, -0.0, 0.01]); W = rand_W()
     out = m["correct_accel"](x, W, np.zeros(3), 9.8, np.zeros(3), 35e-3, 0, 9.2); ev += 1
